@@ -488,7 +488,10 @@ static rd_status lzma_symbols(ctx *c, lzma_dec *d, rcd *rc, lzwin *w, int mode,
 #define INOFF ((size_t)(rc->p - c->in))
 
 	if (rc->corrupt)
-		return fail(c, RD_INVALID, INOFF, "range decoder: initial code equals range");
+		// The LZMA specification lists Code == Range as a state that a decoder MAY treat as corruption
+		// (its reference decoder only sets a flag and goes on); a decoder that does not check it is
+		// conforming. No verdict.
+		return fail(c, RD_LIMIT, INOFF, "no verdict: range decoder initial code equals range (optional corruption check)");
 	for (;;) {
 		if (mode != LM_EOPM && produced == target) {
 			if (!rc_normalize(rc))
@@ -590,7 +593,7 @@ static rd_status lzma_symbols(ctx *c, lzma_dec *d, rcd *rc, lzwin *w, int mode,
 			if (rc->eof)
 				goto eof;
 			if (rc->corrupt)
-				return fail(c, RD_INVALID, INOFF, "range decoder corrupted in direct bits");
+				return fail(c, RD_LIMIT, INOFF, "no verdict: Code == Range while decoding direct bits (optional corruption check)");
 			if (rep0 == 0xFFFFFFFFu) {
 				if (mode == LM_EXACT)
 					return fail(c, RD_INVALID, INOFF, "end marker where none is allowed");
